@@ -18,7 +18,9 @@ RULES = {
              "status = current_status(stored, env.block) and threshold = stored.threshold.to_response(stored.total_weight)",
     "R03.5": "current_status table: result is Passed iff stored Open and is_passed; Rejected iff stored Open, not passed and "
              "(is_rejected or expired); otherwise the stored status (finite case split over the decisions of the function)",
-    "R03.6": "no pass without Yes weight (shared with C04 R04.1)",
+    "R03.6": "threshold-rule clauses shared with C04: no pass without Yes weight (R04.1); the arms of is_passed / is_rejected agree "
+             "on strictness, base weight and complementary percentage (R04.4) - a deviating arm reports Rejected for a proposal "
+             "that can still pass, or both Passed and Rejected for one tally",
 }
 FIELD_OF_VOTE = {"Yes": "yes", "No": "no", "Abstain": "abstain", "Veto": "veto"}
 
@@ -142,7 +144,7 @@ def run(ctx):
     C04.run(sub)
     for k in sub.order:
         o = sub.obs[k]
-        if o.rule == "R04.1" and not o.key.startswith(("anchor", "floor")):
+        if o.rule in ("R04.1", "R04.4") and not o.key.startswith(("anchor", "floor")):
             ctx.ob("R03.6", o.key, o.status == "discharged" or None if o.status == "undecided" else o.status == "discharged",
                    detail="; ".join(o.details), sites=o.sites, sample=o.sample)
 
